@@ -52,7 +52,8 @@ partial def pItem : P Item := do
   | "line" => do let a ← str; let b ← str; pure (.line a b)
   | "rect" => do let a ← str; let b ← str; pure (.rect a b)
   | "curve" => do let a ← str; let b ← str; let c ← str; pure (.curve a b c)
-  | "image" => do let a ← str; let b ← str; pure (.image a b)
+  | "image" => do let a ← str; let b ← str; pure (.image a b none)
+  | "imagesrc" => do let n ← str; let a ← str; let b ← str; pure (.image a b (some n))
   | "(figure" => do let n ← str; let b ← str; let ks ← pItems; pure (.figure n b ks)
   | "(textline" => do let b ← str; let ks ← pItems; pure (.textline b ks)
   | "(textbox" => do
